@@ -167,6 +167,27 @@ theorem ofr_json_eq_view (b : KBinding) (obj : J) :
     OFR.json (ofrOf b.cfg obj) = Spec.ObjView.json (Spec.viewOf b obj) := by
   unfold OFR.json Spec.ObjView.json; rw [ofr_map_eq_view]
 
+/-- … and so is the element a KubeEvent carries — including the bare result of a Deleted event whose
+jqFilter failed on the last state of the object (`filterResult: null`, `object` iff the binding keeps
+full objects: `RemoveFullObject` covers the fallback too). -/
+theorem ofr_event_map_eq_view (b : KBinding) (obj : J) :
+    (ofrEvent b.cfg obj).map = (Spec.viewOf b obj).fields := by
+  have h0 := ofr_map_eq_view b obj
+  unfold ofrEvent project
+  cases hf : b.cfg.filter with
+  | none => simpa [hf] using h0
+  | some f =>
+    cases he : f.eval obj with
+    | none =>
+      cases hk : b.cfg.keep <;>
+        simp [ofrDeletedFallback, OFR.map, Spec.viewOf, Spec.ObjView.fields, hf, he, hk, optJ]
+    | some v => simpa [hf, he] using h0
+
+theorem ofrEvent_object (cfg : Cfg) (obj : J) :
+    (ofrEvent cfg obj).object = if cfg.keep then some obj else none := by
+  unfold ofrEvent
+  cases project cfg obj <;> simp [ofrDeletedFallback, ofrOf]
+
 theorem snapshot_json_eq (cl : Cluster) (b : KBinding) :
     (snapshotOf cl b).map OFR.json = (Spec.snapshotView cl b).map Spec.ObjView.json := by
   unfold snapshotOf Spec.snapshotView
@@ -332,7 +353,7 @@ theorem mapV1_eq_spec_partial (h : Hook) (cl : Cluster) (o : Origin) (hwf : WF h
     unfold Spec.fieldsV1 Spec.groupFields
     by_cases hg : b.group = ""
     · have hwe : we.toString ≠ "" := by cases we <;> simp [WatchEvent.toString]
-      simp [mkCtx, hg, hwe, ofr_map_eq_view]
+      simp [mkCtx, hg, hwe, ofr_event_map_eq_view]
     · simp [mkCtx, hg]
 
 
@@ -399,7 +420,7 @@ theorem mapV0_eq_spec (h : Hook) (cl : Cluster) (o : Origin)
     have hobj := updateSnapshots_objects_event h cl (mkCtx (.kubeEvent b we obj)) (by simp [mkCtx])
     unfold mapV0
     rw [h1, h2, h5, hobj]
-    simp [mkCtx, Spec.fieldsV0, ofrOf, hk]
+    simp [mkCtx, Spec.fieldsV0, ofrEvent_object, hk]
 
 /-- Regression witness for the repaired v0 defect: with the full object dropped (what the
 unrepaired v0 loader configured), `MapV0` dereferences a nil object — a panic. -/
@@ -504,6 +525,61 @@ theorem event_filter_result (h : Hook) (cl : Cluster) (b : KBinding) (we : Watch
   simp only [Spec.expected, get_mkObj, Spec.fieldsV1, hg]
   cases hi : b.inc <;> cases hk : b.cfg.keep <;>
     simp [Spec.snapshotsField, Spec.viewOf, Spec.ObjView.fields, lastAssign, hk, hf, hv]
+
+/-- **C09 event_object_iff_keep.** The element of an Event context — whatever the watch event, also
+when the jqFilter fails on the object (a Deleted event is fired all the same) — carries the full
+object exactly when keepFullObjectsInMemory is not false. -/
+theorem event_object_iff_keep (b : KBinding) (obj : J) :
+    "object" ∈ (OFR.json (ofrEvent b.cfg obj)).keys ↔ b.cfg.keep = true := by
+  unfold OFR.json
+  rw [ofr_event_map_eq_view, mem_keys_mkObj]
+  cases hk : b.cfg.keep <;> cases hf : b.cfg.filter <;> simp [Spec.viewOf, Spec.ObjView.fields, hk, hf]
+
+/-- **C09 event_filter_result_on_error.** A Deleted event for an object the jqFilter fails on: there is
+no jq result, `filterResult` is rendered as `null` (and is present: jqFilter is set). -/
+theorem event_filter_result_on_error (b : KBinding) (obj : J) (f : Prog)
+    (hf : b.cfg.filter = some f) (he : f.eval obj = none) :
+    (OFR.json (ofrEvent b.cfg obj)).get? "filterResult" = some .null := by
+  unfold OFR.json
+  rw [ofr_event_map_eq_view, get_mkObj]
+  cases hk : b.cfg.keep <;> simp [Spec.viewOf, Spec.ObjView.fields, hk, hf, he, lastAssign]
+
+def exFailCfg (keep : Bool) : Cfg :=
+  { types := [.deleted], filter := some (.one (.path ["spec", "replicas", "x"])), keep := keep }
+def exFailObj : J := .obj [("spec", .obj [("replicas", .num 5)])]
+
+/-- Non-vacuity: `.spec.replicas.x` fails on `replicas: 5`; the Deleted item has no `object` when full
+objects are dropped, has it when they are kept, and `filterResult` is null in both. -/
+example : (exFailCfg false).filter.bind (fun f => f.eval exFailObj) = none
+    ∧ (OFR.json (ofrEvent (exFailCfg false) exFailObj)).print = "{\"filterResult\":null}"
+    ∧ (OFR.json (ofrEvent (exFailCfg true) exFailObj)).print =
+        "{\"filterResult\":null,\"object\":{\"spec\":{\"replicas\":5}}}" := by decide
+
+/-- Witness for the seeded change C09-m1 (the fallback result escapes `RemoveFullObject`): the item of
+the Deleted event carries the full object although keepFullObjectsInMemory is false — replayed on the
+real code by the corpus cases "Deleted after a failing filter". -/
+theorem deleted_fallback_unstripped_witness :
+    "object" ∈ (OFR.json (ofrDeletedFallbackUnstripped (exFailCfg false) exFailObj)).keys
+    ∧ "object" ∉ (OFR.json (ofrEvent (exFailCfg false) exFailObj)).keys := by decide
+
+/-- **C09 string results stay strings.** A jq result that is a string is rendered as that string, also
+when its content is itself a JSON text (`"3"`, `"true"`, `"null"`, `"{\"a\":1}"`). -/
+theorem filter_result_string_faithful (b : KBinding) (obj : J) (f : Prog) (s : String)
+    (hf : b.cfg.filter = some f) (hv : f.eval obj = some (.str s)) :
+    (OFR.json (ofrOf b.cfg obj)).get? "filterResult" = some (.str s) := by
+  rw [filter_result_faithful, hf]; simp [hv]
+
+example : (OFR.json (ofrOf { types := [], filter := some (.one (.path ["spec", "a"])), keep := false }
+      (.obj [("spec", .obj [("a", .str "3")])]))).print = "{\"filterResult\":\"3\"}" := by decide
+
+/-- Witness for the seeded change C09-m2 (the Go value of the jq result is stored, and `Map()` still
+takes a Go string for "jq output as JSON text"): the stored string `3` decodes to the number 3, the
+item shows `filterResult: 3` although the jq result for the object is the string `"3"`. -/
+theorem string_result_reparsed_witness :
+    (OFR.json { jqSet := true, removed := true, object := none,
+                fr := .str false (.str "3") (some (.num 3)) }).get? "filterResult" = some (.num 3)
+    ∧ (Prog.one (.path ["spec", "a"])).eval (.obj [("spec", .obj [("a", .str "3")])]) = some (.str "3") := by
+  decide
 
 /-- Regression witness for the repaired defect: with the Go value of `jq.ApplyFilter` stored instead
 of the JSON text, `Map()` takes its `!ok` branch and renders `filterResult: null` — although the jq
